@@ -194,6 +194,54 @@ def Un.prog (mx : Bool) : Op K E → Prog K E (Res E)
   | .disconnect u v => Un.disconnect mx u v
   | .isolate u => Un.isolate mx u
 
+/-! ### traversals as lock programs
+A traversal of a sync flavour takes no lock of its own: every `for edge in node.iter_*()` step is one `iterNext`
+(a read guard that is a temporary of `next()`), and the closure, the visited set, the queue / recursion stack are
+thread-local. `sel` is the list the iterator reads (outgoing, incoming for `transpose()`, `out ++ inn` for the
+undirected flavours). The control flow is that of the `_find` loops (`search()` without closure). -/
+
+/-- breadth-first `search()`: `cur` is the node being expanded with the iterator position, `q` the queue -/
+def bfsProg (sel : Adj K E → List (K × E)) (tgt : Option K) :
+    Nat → Option (K × Nat) → List K → List K → Prog K E (Option K)
+  | 0, _, _, _ => .done none
+  | _ + 1, none, [], _ => .done none
+  | fuel + 1, none, u :: q, vis => bfsProg sel tgt fuel (some (u, 0)) q vis
+  | fuel + 1, some (u, pos), q, vis =>
+    (iterNext u sel pos).bind fun x =>
+      match x with
+      | none => bfsProg sel tgt fuel none q vis
+      | some (v, _) =>
+        if vis.contains v then bfsProg sel tgt fuel (some (u, pos + 1)) q vis
+        else if tgt = some v then .done (some v)
+        else bfsProg sel tgt fuel (some (u, pos + 1)) (q ++ [v]) (v :: vis)
+
+/-- depth-first `search()`: the recursion stack holds (node, iterator position) frames -/
+def dfsProg (sel : Adj K E → List (K × E)) (tgt : Option K) :
+    Nat → List (K × Nat) → List K → Prog K E (Option K)
+  | 0, _, _ => .done none
+  | _ + 1, [], _ => .done none
+  | fuel + 1, (u, pos) :: stack, vis =>
+    (iterNext u sel pos).bind fun x =>
+      match x with
+      | none => dfsProg sel tgt fuel stack vis
+      | some (v, _) =>
+        if vis.contains v then dfsProg sel tgt fuel ((u, pos + 1) :: stack) vis
+        else if tgt = some v then .done (some v)
+        else dfsProg sel tgt fuel ((v, 0) :: (u, pos + 1) :: stack) (v :: vis)
+
+/-- `preorder().search_nodes()` / `order().pre().search_nodes()`: nodes in discovery order -/
+def preProg (sel : Adj K E → List (K × E)) :
+    Nat → List (K × Nat) → List K → List K → Prog K E (List K)
+  | 0, _, _, acc => .done acc
+  | _ + 1, [], _, acc => .done acc
+  | fuel + 1, (u, pos) :: stack, vis, acc =>
+    (iterNext u sel pos).bind fun x =>
+      match x with
+      | none => preProg sel fuel stack vis acc
+      | some (v, _) =>
+        if vis.contains v then preProg sel fuel ((u, pos + 1) :: stack) vis acc
+        else preProg sel fuel ((v, 0) :: (u, pos + 1) :: stack) (v :: vis) (acc ++ [v])
+
 end Sync
 
 /-! ## Running lock programs -/
